@@ -220,6 +220,8 @@
 (assert (hp Leaf))
 (assert (forall ((l Tree) (i Int) (r Tree))
   (! (= (hp (Node l i r)) (and (hp l) (hp r) (<= (rootPri l) (ipri i)) (<= (rootPri r) (ipri i)))) :pattern ((hp (Node l i r))))))
+; LEMMA L1 (induction on t, DESIGN section 4): in a heap-ordered search tree no member outranks the root
+(assert (forall ((k Int) (t Tree)) (! (=> (and (hp t) (bst t) (mem k t)) (<= (ipri (itemAt k t)) (rootPri t))) :pattern ((hp t) (itemAt k t)))))
 ;@spec mem smt=mem args=Int,Tree res=Bool
 ;@spec itemAt smt=itemAt args=Int,Tree res=Int
 ;@spec cnt smt=cnt args=Tree res=Int
